@@ -160,6 +160,24 @@ Proof.
     split; [exact Hrun|vm_compute; reflexivity].
 Qed.
 
+(* the string program of VmSimExamples (global string, string parameter and result, + / str_concat / str_length / str_equals /
+   str_contains / char_at / str_substring / int_to_string) *)
+Example backends_agree_typed_strings : exists M,
+  wt ex_str = true /\ compile_program ex_str = Some M /\ small_program ex_str /\ fuel_small 200 /\ depth_ok M /\
+  se_program ex_str = true /\ cc_refuses ex_str = false /\
+  run_ref 200 ex_str = Done ex_str_out 119 /\ run_vm 5000 M = VDone ex_str_out 119 /\ run_nat RtoL 200 ex_str = NDone ex_str_out 119.
+Proof.
+  destruct (compile_program ex_str) as [M|] eqn:E; [|vm_compute in E; discriminate E].
+  exists M.
+  assert (Hrun : run_vm 5000 M = VDone ex_str_out 119).
+  { vm_compute in E. injection E as <-. vm_compute. reflexivity. }
+  split; [vm_compute; reflexivity|]. split; [reflexivity|]. split; [exact ex_str_small|].
+  split; [unfold fuel_small; lia|]. split.
+  - apply (depth_ok_of_run M 5000); [rewrite Hrun; discriminate|intros o; rewrite Hrun; discriminate].
+  - split; [vm_compute; reflexivity|]. split; [vm_compute; reflexivity|]. split; [vm_compute; reflexivity|].
+    split; [exact Hrun|vm_compute; reflexivity].
+Qed.
+
 Example backends_agree_oob_typed_satisfiable : exists M,
   wt ex_oob = true /\ compile_program ex_oob = Some M /\ small_program ex_oob /\ fuel_small 100 /\
   depth_ok M /\ se_program ex_oob = true /\ cc_refuses ex_oob = false /\
